@@ -793,6 +793,36 @@ func c20Post(c *Check) {
 		}
 		c.Hold("R5", "readNode:name-validated", r.FI.Decl.Pos(), msg == "", msg)
 	}
+	// the validation classifies characters: a unicode.IsX predicate is never applied to one byte of a string
+	// re-interpreted as a code point (for a multi-byte character that is its UTF-8 lead byte, never a digit/letter)
+	{
+		nuni := 0
+		p.AllFuncs(p.ServerPkgs(), func(fi *FuncInfo) {
+			if !strings.HasSuffix(fi.Pkg.PkgPath, "/"+cfgparserRel) && !strings.HasSuffix(fi.Pkg.PkgPath, "/"+lexerRel) {
+				return
+			}
+			info := fi.Info()
+			k := 0
+			for _, call := range callsIn(fi.Decl) {
+				fn := callee(info, call)
+				if fn == nil || fn.Pkg() == nil || fn.Pkg().Path() != "unicode" || len(call.Args) != 1 {
+					continue
+				}
+				k++
+				nuni++
+				bad := false
+				if conv, ok := ast.Unparen(call.Args[0]).(*ast.CallExpr); ok && len(conv.Args) == 1 && info.Types[conv.Fun].IsType() {
+					if b, ok := info.TypeOf(conv.Args[0]).Underlying().(*types.Basic); ok && b.Kind() == types.Uint8 {
+						bad = true
+					}
+				}
+				c.Hold("R5", fi.Name()+":unicode."+fn.Name()+itoa(k)+":on-characters", call.Pos(), !bad, "unicode."+fn.Name()+" is applied to a single byte converted to a rune, not to a decoded character: names starting with / containing non-ASCII characters are classified by their UTF-8 lead byte (e.g. a non-ASCII digit passes the 'cannot start with a digit' test)")
+			}
+		})
+		if nuni < 3 {
+			c.Fail("R5", "unicode-classification", token.NoPos, "undecided: expected the character classification of directive names and of the lexer")
+		}
+	}
 	if r := c.need("R5", cfgparserRel, "parseContext", "expandImports"); r != nil {
 		info := r.Info
 		self := r.FI.Obj
